@@ -122,6 +122,7 @@ pub fn exec_count() -> u64 {
     EXEC_COUNT.with(|c| c.get())
 }
 pub fn reset_attribution() {
+    set_current_task(0);
     ATTR_HASH.with(|h| h.set(0xcbf2_9ce4_8422_2325));
     TASKS_WITH_QUERIES.with(|s| s.borrow_mut().clear());
 }
@@ -130,6 +131,13 @@ pub fn attribution() -> (u64, usize) {
 }
 pub fn set_current_task(t: u64) -> u64 {
     CUR_TASK.with(|c| c.replace(t))
+}
+/// Restores the previous task id when dropped, also when the task unwinds.
+pub struct TaskGuard(pub u64);
+impl Drop for TaskGuard {
+    fn drop(&mut self) {
+        set_current_task(self.0);
+    }
 }
 
 /// Runs `f` on a snapshot and cancels it when the `k`-th query (from now) starts executing.
@@ -184,9 +192,8 @@ impl Executor for SeqExecutor {
             let id = self.next_task.get();
             self.next_task.set(id + 1);
             self.tasks_run.set(self.tasks_run.get() + 1);
-            let prev = set_current_task(id);
+            let _restore = TaskGuard(set_current_task(id));
             t();
-            set_current_task(prev);
         }
     }
     fn num_threads(&self) -> usize {
